@@ -120,6 +120,7 @@ def run(prog, R):
     R.ob("C17.3-determinism", "file-system / environment reads only in the include resolver", ok_fs and bool(fsuse), "", f"{ {k: sorted(v) for k, v in fsuse.items()} }")
     R.premises(prog, "C17.1-lexer-layout-premise", ["C10:C10.1-", "C15:C15.5-", "C15:C15.3-", "C15:C15.2-", "C15:C15.4-"],
                "whether a blank may be inserted between two lexemes, or an identifier renamed, without changing the token classes rests on the lexer's tables: number + unit splitting, whitespace class, trivia / jointness handling, numeric suffix protocol, keyword / directive word boundaries, comment delimiters")
+    R.premises(prog, "C17.1-trivia-placement-premise", ["C16:C16.6-", "C02:C02.3-"], "comments and blank space do not change what the analyser reads: trivia is never attached inside a node whose first token an accessor reads (n_attached_trivias is 0 for every kind the grammar completes, C16.6) and is re-inserted around tokens by one predicate (C02.3)")
     R.premises(prog, "C17.4-symbol-store-premise", ["C19:C19.1-", "C19:C19.5-"], "symbols once emitted are never changed: the symbol store is append-only (C19.1) and ids index it (C19.5)")
     import roles
     roles.check(prog, R, "C17.1-accessor-roles")       # the typed accessors select constituents among child *nodes*: comments and blanks between tokens do not change what they return
